@@ -865,7 +865,7 @@ func init() {
 	core.Register(&core.Check{
 		Spec: core.Spec{
 			Prop:        "C12",
-			Rule:        "Same virtual network as C11 with one position played by the harness as a malicious relay (it owns that position's keys only). List classes: random bytes; well-formed entries with a wrong digest; honest nodes' genuine signatures for other items (harvested from earlier traffic), also re-labelled with this item's digest; honest addresses signed with the adversary's key; genuine entries with address/signature swapped between nodes; copies of its own entry also under a victim's address; a signature the victim issued for another purpose (its signed missing-parent request for the item's hash, provoked with a bait vertex) presented as its entry; mixtures with nil/zero parts; the target itself listed; the honest entries for this very item replayed (legitimate); empty list. Unit level: the relay hands a hub an item with such a list: the hub must process it and forward to exactly the peers not covered by entries that really verify (reference = the harness's own ed25519 check of address|item hash). Network level: the relay, adjacent to the origin, gets the item first and injects forged copies to all its neighbours before any honest copy is delivered, or just drops; afterwards PRNG delivery order: every honest node with an honest path to the origin must hold the item and nobody may be skipped. Non-trivial = every list/execution; distinct by (class, item kind, topology, relay position, origin). Two further adversaries: it provokes and harvests the victim's signed missing-parent request (bait vertex) and presents that signature as the victim's entry; and it lists a node that is not yet the relay's peer and joins (peer table entry added from a hook inside the relay's ledger admission) while the relay admits the item. List class sybil-entries pads the list with genuinely signed entries of throw-away wallets that are nobody's peer. The unit part first lets the hub verify genuine entries of its peers for an earlier item and then replays exactly those entries on the next item. List lengths: on the paw graph the relay pads its copy with exactly N genuinely signed throw-away entries, N around every round number (quick) or every N up to 260 (thorough). Announcement collision: the adversary announces itself (validly signed) under the URL of an honest peer, then hands over an item listing only its own entry: the honest peer stays in the peer table and gets the item.",
+			Rule:        "Same virtual network as C11 with one position played by the harness as a malicious relay (it owns that position's keys only). List classes: random bytes; well-formed entries with a wrong digest; honest nodes' genuine signatures for other items (harvested from earlier traffic), also re-labelled with this item's digest; honest addresses signed with the adversary's key; genuine entries with address/signature swapped between nodes; copies of its own entry also under a victim's address; a signature the victim issued for another purpose (its signed missing-parent request for the item's hash, provoked with a bait vertex) presented as its entry; mixtures with nil/zero parts; the target itself listed; the honest entries for this very item replayed (legitimate); empty list. Unit level: the relay hands a hub an item with such a list: the hub must process it and forward to exactly the peers not covered by entries that really verify (reference = the harness's own ed25519 check of address|item hash). Network level: the relay, adjacent to the origin, gets the item first and injects forged copies to all its neighbours before any honest copy is delivered, or just drops; afterwards PRNG delivery order: every honest node with an honest path to the origin must hold the item and nobody may be skipped. Non-trivial = every list/execution; distinct by (class, item kind, topology, relay position, origin). Two further adversaries: it provokes and harvests the victim's signed missing-parent request (bait vertex) and presents that signature as the victim's entry; and it lists a node that is not yet the relay's peer and joins (peer table entry added from a hook inside the relay's ledger admission) while the relay admits the item. List class sybil-entries pads the list with genuinely signed entries of throw-away wallets that are nobody's peer. The unit part first lets the hub verify genuine entries of its peers for an earlier item and then replays exactly those entries on the next item. List lengths: on the paw graph the relay pads its copy with exactly N genuinely signed throw-away entries, N around every round number (quick) or every N up to 260 (thorough). Announcement collision: the adversary announces itself (validly signed) under the URL of an honest peer, then hands over an item listing only its own entry: the honest peer stays in the peer table and gets the item. The garbage class carries entries whose address decodes to 0-8 bytes or is no base58 at all, with random and with matching digests.",
 			Assumptions: []string{"the adversary controls one relay position and cannot forge ed25519 signatures of honest nodes", "lists with nil or short-digest entries are judged by C15 (crash safety)"},
 			MinEvals:    40, MinNontriv: 15,
 		},
